@@ -14,12 +14,15 @@ EXTENDS Integers, Sequences, FiniteSets, TLC, Layers, Json, SequencesExt
 
 \* Unp / PUnp: the validated value is a custom UNPACKER (Unpack takes X from the setting, Validate() demands X >= 2),
 \* as a value field and behind a pointer that may be pre-filled: it is validated whether it was there before or not
-Scalars == {"In", "PIn", "PPIn", "PPPIn", "IfPIn", "IfIn", "IfPPIn", "Unp", "PUnp"}
-IsUnp(w) == w \in {"Unp", "PUnp"}
-Lists   == {"LIn", "LPIn", "LPPIn", "LIfPIn", "LIfIn", "PLIn", "PLPIn", "AIn", "APIn", "APPIn"}
-Maps    == {"MIn", "MPIn", "MPPIn", "MIfPIn", "MIfIn"}
+\* VP / VV: the validated value is a NAMED PRIMITIVE (type Port int) whose Validate() demands a value >= 2, declared on the
+\* pointer receiver (VP) or on the value receiver (VV); alone, behind a pointer, and as the direct element of a slice, an
+\* array or a map - the value of such a setting is the number itself
+Scalars == {"In", "PIn", "PPIn", "PPPIn", "IfPIn", "IfIn", "IfPPIn", "Unp", "PUnp", "VP", "PVP", "VV"}
+IsUnp(w) == w \in {"Unp", "PUnp", "VP", "PVP", "VV"}
+Lists   == {"LIn", "LPIn", "LPPIn", "LIfPIn", "LIfIn", "PLIn", "PLPIn", "AIn", "APIn", "APPIn", "LVP", "LVV", "AVP", "PLVP"}
+Maps    == {"MIn", "MPIn", "MPPIn", "MIfPIn", "MIfIn", "MVP", "MVV"}
 Wrappers == Scalars \cup Lists \cup Maps
-CanBeNil(w) == w \in {"PIn", "PPIn", "PPPIn", "PLIn", "PLPIn", "PUnp"}
+CanBeNil(w) == w \in {"PIn", "PPIn", "PPPIn", "PLIn", "PLPIn", "PUnp", "PVP", "PLVP"}
 IsIface(w) == w \in {"IfPIn", "IfIn", "IfPPIn", "LIfPIn", "LIfIn", "MIfPIn", "MIfIn"}
 Xs == {0, 3}
 Defaults(w) == (IF CanBeNil(w) THEN {[nil |-> TRUE]} ELSE {})
@@ -32,7 +35,7 @@ Settings(w) == {"absent", "nil"}
                \* the pre-filled entries are still all unmentioned and all validated
                \cup (IF w \in Maps /\ IsIface(w) THEN {"null-new"} ELSE {})
                \* (a fixed-size array must be given in full length: a shorter list is the "wrong list length" error)
-               \cup (IF w \in (Lists \cup Maps) /\ ~IsIface(w) /\ w \notin {"AIn", "APIn", "APPIn"} THEN {"first"} ELSE {})
+               \cup (IF w \in (Lists \cup Maps) /\ ~IsIface(w) /\ w \notin {"AIn", "APIn", "APPIn", "AVP"} THEN {"first"} ELSE {})
 
 \* the X values reachable in the result
 Final(w, d, s) ==
